@@ -219,3 +219,187 @@ pub fn process(accounts: &[AccountInfo], data: &[u8]) -> ProgramResult {
         Ok(())
     }
 }
+
+// ================================================================================================
+// Drift stand-in (same idea): initialize_user_stats, initialize_user, update_user_pool_id,
+// update_spot_market_cumulative_interest, deposit, withdraw on the real `MinimalSpotMarket` / `MinimalUser`
+// layouts. Scaled balances use Drift's own rule in 128-bit integers: a deposit mints
+// floor(amount * 10^(19-decimals) / cumulative_deposit_interest), a withdrawal burns that quantity plus one
+// when it is non-zero.
+// ================================================================================================
+pub mod drift {
+    use super::*;
+    use drift_mocks::state::{MinimalSpotMarket, MinimalUser, SPOT_MARKET_DISCRIMINATOR, USER_DISCRIMINATOR, USER_STATS_DISCRIMINATOR};
+    pub const DRIFT: Pubkey = marginfi::constants::DRIFT_PROGRAM_ID;
+
+    pub fn signer_pda() -> (Pubkey, u8) {
+        Pubkey::find_program_address(&[b"drift_signer"], &DRIFT)
+    }
+    fn market_mut<T>(ai: &AccountInfo, f: impl FnOnce(&mut MinimalSpotMarket) -> T) -> Result<T, ProgramError> {
+        if *ai.owner != DRIFT {
+            return Err(ProgramError::IllegalOwner);
+        }
+        let mut d = ai.try_borrow_mut_data()?;
+        let sz = std::mem::size_of::<MinimalSpotMarket>();
+        if d.len() < 8 + sz || d[..8] != SPOT_MARKET_DISCRIMINATOR {
+            return Err(ProgramError::InvalidAccountData);
+        }
+        let mut m: MinimalSpotMarket = bytemuck::pod_read_unaligned(&d[8..8 + sz]);
+        let out = f(&mut m);
+        d[8..8 + sz].copy_from_slice(bytemuck::bytes_of(&m));
+        Ok(out)
+    }
+    fn user_mut<T>(ai: &AccountInfo, f: impl FnOnce(&mut MinimalUser) -> T) -> Result<T, ProgramError> {
+        if *ai.owner != DRIFT {
+            return Err(ProgramError::IllegalOwner);
+        }
+        let mut d = ai.try_borrow_mut_data()?;
+        let sz = std::mem::size_of::<MinimalUser>();
+        if d.len() < 8 + sz || d[..8] != USER_DISCRIMINATOR {
+            return Err(ProgramError::InvalidAccountData);
+        }
+        let mut u: MinimalUser = bytemuck::pod_read_unaligned(&d[8..8 + sz]);
+        let out = f(&mut u);
+        d[8..8 + sz].copy_from_slice(bytemuck::bytes_of(&u));
+        Ok(out)
+    }
+    fn create<'a>(payer: &AccountInfo<'a>, acct: &AccountInfo<'a>, sysprog: &AccountInfo<'a>, size: usize, disc: &[u8; 8]) -> ProgramResult {
+        if !acct.data_is_empty() {
+            return Err(ProgramError::AccountAlreadyInitialized);
+        }
+        acct.realloc(size, true)?;
+        acct.assign(&DRIFT);
+        invoke(&solana_program::system_instruction::transfer(payer.key, acct.key, 35_000_000), &[payer.clone(), acct.clone(), sysprog.clone()])?;
+        acct.try_borrow_mut_data()?[..8].copy_from_slice(disc);
+        Ok(())
+    }
+    fn pow10(n: u32) -> u128 {
+        10u128.pow(n)
+    }
+    /// the spot market among the trailing accounts of deposit / withdraw
+    fn find_market<'a, 'b>(accounts: &'b [AccountInfo<'a>], from: usize) -> Result<&'b AccountInfo<'a>, ProgramError> {
+        accounts[from..]
+            .iter()
+            .find(|a| *a.owner == DRIFT && a.data_len() >= 8 && a.try_borrow_data().map(|d| d[..8] == SPOT_MARKET_DISCRIMINATOR).unwrap_or(false))
+            .ok_or(ProgramError::NotEnoughAccountKeys)
+    }
+
+    pub fn process(accounts: &[AccountInfo], data: &[u8]) -> ProgramResult {
+        if data.len() < 8 {
+            return Ok(());
+        }
+        let d: [u8; 8] = data[..8].try_into().unwrap();
+        let now = {
+            use solana_program::sysvar::Sysvar;
+            solana_program::clock::Clock::get()?.unix_timestamp
+        };
+        if d == disc("initialize_user_stats") {
+            // 0 user_stats, 1 state, 2 authority (signer), 3 payer, 4 rent, 5 system program
+            if accounts.len() < 6 {
+                return Err(ProgramError::NotEnoughAccountKeys);
+            }
+            let (stats, auth, payer, sysprog) = (&accounts[0], &accounts[2], &accounts[3], &accounts[5]);
+            if !auth.is_signer {
+                return Err(ProgramError::MissingRequiredSignature);
+            }
+            let expect = Pubkey::find_program_address(&[b"user_stats", auth.key.as_ref()], &DRIFT).0;
+            if expect != *stats.key {
+                return Err(ProgramError::InvalidSeeds);
+            }
+            create(payer, stats, sysprog, 8 + 240, &USER_STATS_DISCRIMINATOR)
+        } else if d == disc("initialize_user") {
+            // 0 user, 1 user_stats, 2 state, 3 authority (signer), 4 payer, 5 rent, 6 system program
+            if accounts.len() < 7 {
+                return Err(ProgramError::NotEnoughAccountKeys);
+            }
+            let (user, auth, payer, sysprog) = (&accounts[0], &accounts[3], &accounts[4], &accounts[6]);
+            if !auth.is_signer {
+                return Err(ProgramError::MissingRequiredSignature);
+            }
+            let expect = Pubkey::find_program_address(&[b"user", auth.key.as_ref(), &0u16.to_le_bytes()], &DRIFT).0;
+            if expect != *user.key {
+                return Err(ProgramError::InvalidSeeds);
+            }
+            create(payer, user, sysprog, 8 + std::mem::size_of::<MinimalUser>(), &USER_DISCRIMINATOR)?;
+            user_mut(user, |u| u.authority = *auth.key)?;
+            Ok(())
+        } else if d == disc("update_user_pool_id") {
+            Ok(())
+        } else if d == disc("update_spot_market_cumulative_interest") {
+            // 0 state, 1 spot market
+            let market = accounts.get(1).ok_or(ProgramError::NotEnoughAccountKeys)?;
+            market_mut(market, |m| m.last_interest_ts = now as u64)?;
+            Ok(())
+        } else if d == disc("deposit") || d == disc("withdraw") {
+            let is_dep = d == disc("deposit");
+            // deposit:  0 state, 1 user, 2 user_stats, 3 authority, 4 spot_market_vault, 5 user_token_account, 6 token_program, then [oracle], market, mint
+            // withdraw: 0 state, 1 user, 2 user_stats, 3 authority, 4 spot_market_vault, 5 drift_signer, 6 user_token_account, 7 token_program, then ...
+            let fixed = if is_dep { 7 } else { 8 };
+            if accounts.len() < fixed + 2 || data.len() < 18 {
+                return Err(ProgramError::NotEnoughAccountKeys);
+            }
+            let market_index = u16::from_le_bytes(data[8..10].try_into().unwrap());
+            let amount = u64::from_le_bytes(data[10..18].try_into().unwrap());
+            let (user, auth, vault) = (&accounts[1], &accounts[3], &accounts[4]);
+            let (user_tok, tprog) = if is_dep { (&accounts[5], &accounts[6]) } else { (&accounts[6], &accounts[7]) };
+            if !auth.is_signer {
+                return Err(ProgramError::MissingRequiredSignature);
+            }
+            let market = find_market(accounts, fixed)?;
+            let mint = accounts.last().unwrap();
+            let (cum, dec, mvault, mindex, mmint, stale) = market_mut(market, |m| {
+                (u128::from_le_bytes(m.cumulative_deposit_interest), m.decimals, m.vault, m.market_index, m.mint, (m.last_interest_ts as i64) < now)
+            })?;
+            if mvault != *vault.key || mindex != market_index || mmint != *mint.key || dec > 19 || cum == 0 {
+                return Err(ProgramError::InvalidArgument);
+            }
+            if stale {
+                return Err(ProgramError::Custom(0x4b4d_0002)); // the venue wants its interest brought up to date first
+            }
+            let scaled_exact = (amount as u128) * pow10(19 - dec) / cum;
+            let idx = if market_index == 0 { 0 } else { 1 };
+            if is_dep {
+                let inc = u64::try_from(scaled_exact).map_err(|_| ProgramError::ArithmeticOverflow)?;
+                user_mut(user, |u| {
+                    if u.authority != *auth.key {
+                        return Err(ProgramError::IllegalOwner);
+                    }
+                    u.spot_positions[idx].market_index = market_index;
+                    u.spot_positions[idx].scaled_balance = u.spot_positions[idx].scaled_balance.checked_add(inc).ok_or(ProgramError::ArithmeticOverflow)?;
+                    Ok(())
+                })??;
+                market_mut(market, |m| {
+                    let b = u128::from_le_bytes(m.deposit_balance).saturating_add(inc as u128);
+                    m.deposit_balance = b.to_le_bytes();
+                })?;
+                token_transfer(tprog, user_tok, mint, vault, auth, amount, dec as u8, None)
+            } else {
+                let burn = if scaled_exact == 0 { 0 } else { scaled_exact + 1 };
+                let burn = u64::try_from(burn).map_err(|_| ProgramError::ArithmeticOverflow)?;
+                user_mut(user, |u| {
+                    if u.authority != *auth.key {
+                        return Err(ProgramError::IllegalOwner);
+                    }
+                    if u.spot_positions[idx].scaled_balance < burn {
+                        return Err(ProgramError::InsufficientFunds);
+                    }
+                    u.spot_positions[idx].scaled_balance -= burn;
+                    Ok(())
+                })??;
+                market_mut(market, |m| {
+                    let b = u128::from_le_bytes(m.deposit_balance).saturating_sub(burn as u128);
+                    m.deposit_balance = b.to_le_bytes();
+                })?;
+                let signer = &accounts[5];
+                let (expect, bump) = signer_pda();
+                if expect != *signer.key {
+                    return Err(ProgramError::InvalidSeeds);
+                }
+                let seeds: &[&[u8]] = &[b"drift_signer", &[bump]];
+                token_transfer(tprog, vault, mint, user_tok, signer, amount, dec as u8, Some(seeds))
+            }
+        } else {
+            Ok(())
+        }
+    }
+}
